@@ -261,7 +261,7 @@ Lemma covers_enforced_explicit a c :
   l_sd_bl a <= c_isw c /\ l_sd_br a <= c_isw c /\ l_sd_uni a <= c_isw c /\
   l_s_bidi a <= c_mis c /\ l_s_uni a <= c_mius c /\
   l_cid a <= protoMaxActiveConnectionIDs /\
-  Z.min (l_dgram a) (l_udp a - minPacketOverhead) <= (if c_dg c then wireMaxDatagramSize else 0) /\
+  Z.min (l_dgram a) (Z.min (l_udp a) protoMaxPacketBufferSize - minPacketOverhead) <= (if c_dg c then wireMaxDatagramSize else 0) /\
   (0 < l_idle a /\ l_idle a <= c_idle c).
 Proof. unfold covers, enforced, dgram_cap. simpl. tauto. Qed.
 
@@ -278,6 +278,38 @@ Proof.
   - apply Z.le_min_l.
   - lia.
   - lia.
+Qed.
+
+(** * The spec-driven client covers what its spec advertises, whatever the Config *)
+
+Definition spec_valid (a : limits) : Prop :=
+  0 < l_idle a /\ l_idle a / nsPerMs <= maxDurationMs /\
+  l_s_bidi a <= protoMaxStreamCount /\ l_s_uni a <= protoMaxStreamCount.
+
+Lemma spec_covers a c : spec_valid a -> covers a (enforced_spec a c).
+Proof.
+  intros (Hi & Hg & Hb & Hu). unfold covers, enforced_spec, enforced, cover_config, dgram_cap.
+  cbn [l_max_data l_sd_bl l_sd_br l_sd_uni l_s_bidi l_s_uni l_cid l_dgram l_idle l_udp
+       c_isw c_msw c_icw c_mcw c_mis c_mius c_dg c_idle].
+  rewrite (proj2 (Z.leb_le _ _) Hg).
+  unfold protoMaxStreamCount in *.
+  repeat split; try lia.
+  unfold protoMaxPacketBufferSize, minPacketOverhead, wireMaxDatagramSize.
+  destruct (c_dg c); cbn [orb]; [lia|].
+  destruct (Z.ltb_spec 0 (l_dgram a)); lia.
+Qed.
+
+Lemma spec_client_ok a c : spec_valid a -> forall h code, play a (enforced_spec a c) h <> Err code.
+Proof. intros V. apply covers_safe, spec_covers, V. Qed.
+
+(* what remains: a spec that does not advertise max_idle_timeout tells its peer "no idle timeout"
+   (RFC 9000 10.1) while the client still gives up after Config.MaxIdleTimeout *)
+Lemma idle_not_advertised_refuted a c : l_idle a <= 0 -> 0 < c_idle c ->
+  play a (enforced_spec a c) [EvSilence (l_idle (enforced_spec a c)) 0 0] = Err IdleTimeout.
+Proof.
+  intros H0 Hc. apply wit_idle; [|left; exact H0].
+  unfold enforced_spec, enforced, cover_config. cbn [l_idle c_idle].
+  destruct (l_idle a / nsPerMs <=? maxDurationMs); lia.
 Qed.
 
 (** * Transport parameter encoding: a peer parsing the bytes gets the list back *)
@@ -364,29 +396,23 @@ Proof.
   simpl. constructor; [|exact IH]. destruct (is_vi id); split; simpl; auto.
 Qed.
 
-(* model of newUClientConnection's two serialisations of the (suppressed, shuffled,
-   source-connection-ID-filled) list [ps]: PopulateFromUQUIC's ClientOverride and the
-   ClientHello extension uTLS writes *)
-Definition override_bytes (o : Z -> list Z -> list Z) (ps : list tparam) : list Z := marshal (redraw o ps).
+(* The old shape of newUClientConnection: ClientOverride = a marshaling of its own
+   (PopulateFromUQUIC), the ClientHello extension = another one (uTLS): two draws. *)
+Definition override_bytes_old (o : Z -> list Z -> list Z) (ps : list tparam) : list Z := marshal (redraw o ps).
 Definition wire_bytes (o : Z -> list Z -> list Z) (ps : list tparam) : list Z := marshal (redraw o ps).
+(* The repaired shape: the record is taken from the extension's own (cached) encoding, the
+   byte string uTLS then writes into the ClientHello: one draw [o]. *)
+Definition override_bytes (o : Z -> list Z -> list Z) (ps : list tparam) : list Z := wire_bytes o ps.
 
-Theorem record_equals_wire_limits o1 o2 ps :
-  (forall id b, vwf (zlen (o1 id b))) -> (forall id b, vwf (zlen (o2 id b))) -> Forall wf_param ps ->
-  exists lo lw,
-    parse (override_bytes o1 ps) = Some lo /\ parse (wire_bytes o2 ps) = Some lw /\
-    advertised (kv_of lo) = advertised (kv_of lw) /\ recorded (kv_of lo) = recorded (kv_of ps) /\
-    advertised (kv_of lw) = advertised (kv_of ps).
-Proof.
-  intros H1 H2 W. exists (redraw o1 ps), (redraw o2 ps).
-  unfold override_bytes, wire_bytes.
-  rewrite (parse_marshal _ (wf_redraw o1 ps H1 W)), (parse_marshal _ (wf_redraw o2 ps H2 W)).
-  rewrite !kv_of_redraw. repeat split; reflexivity.
-Qed.
+Theorem record_equals_wire o ps : override_bytes o ps = wire_bytes o ps.
+Proof. reflexivity. Qed.
 
-Theorem record_equals_wire_without_vi o1 o2 ps :
-  forallb (fun p => negb (is_vi (fst p))) ps = true -> override_bytes o1 ps = wire_bytes o2 ps.
+Theorem record_equals_wire_limits o ps :
+  (forall id b, vwf (zlen (o id b))) -> Forall wf_param ps ->
+  exists l,
+    parse (override_bytes o ps) = Some l /\ parse (wire_bytes o ps) = Some l /\
+    recorded (kv_of l) = recorded (kv_of ps) /\ advertised (kv_of l) = advertised (kv_of ps).
 Proof.
-  intros H. unfold override_bytes, wire_bytes. f_equal.
-  induction ps as [|p t IH]; [reflexivity|]. simpl in H. apply andb_prop in H as [Hp Ht].
-  simpl. apply negb_true_iff in Hp. rewrite Hp. f_equal. apply IH, Ht.
+  intros H W. exists (redraw o ps). unfold override_bytes, wire_bytes.
+  rewrite (parse_marshal _ (wf_redraw o ps H W)). rewrite !kv_of_redraw. repeat split; reflexivity.
 Qed.
